@@ -226,10 +226,18 @@ GUARDED = [
     ('ReplaceInductionVariablesTrans', 'validate'),
 ]
 
+# the answers the validations rely on: a call reported pure is moved,
+# swapped or duplicated freely
+PREDICATES = [
+    ("psyclone.psyir.nodes.call.Call", "is_pure", True),
+]
+
+
 def check(idx, run):
     run.explanation = __doc__
-    from sa.guards import check_guards
+    from sa.guards import check_guards, check_predicates
     check_guards(idx, run, "C05.R3", GUARDED)
+    check_predicates(idx, run, "C05.R4", PREDICATES)
     check_table(idx, run, "C05.R1", TABLE)
     # ChunkLoopTrans validates both chunked loops in tiling: two calls
     cls = idx.get_class("LoopTiling2DTrans")
